@@ -2,6 +2,11 @@
 import numpy as np
 
 
+import os as _os
+
+REPO = _os.environ.get('VERIF_REPO', '/repo').rstrip('/')   # /repo unless a scratch worktree is tried
+
+
 class HarnessError(Exception):
     """A fault of the verification machinery (not of pb_bss)."""
 
